@@ -74,7 +74,7 @@ class Ent:
 
 
 def _comps(obj):
-    return [obj] if type(obj).__name__ == "Array" else list(obj._xyz.values())
+    return [obj] if type(obj).__name__ == "Array" else [getattr(obj, c_) for c_ in "xyz" if getattr(obj, c_) is not None]
 
 
 def _quant(obj):
